@@ -68,6 +68,7 @@ import os
 import pickle
 import re
 import signal
+import time
 import traceback
 
 from mc.result import Result, canon_json
@@ -116,6 +117,8 @@ STEP_BUDGET = 5000          # process() calls per parse; legitimate parses here 
 CPU_GUARD_S = 1             # user-mode CPU seconds of this process per term (121 parses normally take ~2 ms)
 DOC_GUARD_S = 1             # ... per JSON document / tag expression (normally ~0.3 ms)
 MAX_HANGS_PER_UNIT = 3      # a unit is abandoned (exhaustive: false) after that many non-terminating cases
+UNIT_CPU_S = {"quick": 120, "thorough": 900}   # a unit normally needs 1-10 CPU-s; beyond this it is abandoned and the
+                                               # run reports exhaustive: false (never decides a verdict)
 
 SIGMA = "abA"
 INPUTS = [""] + ["".join(p) for n in (1, 2, 3, 4) for p in itertools.product(SIGMA, repeat=n)]
@@ -1119,6 +1122,8 @@ def t_truth_table(pred, tagsets, how):
     status, val = guarded(table, pred)
     if status == "ok":
         return val
+    if status == "hang":
+        return None
     out = []
     for ts in tagsets:                   # something raised or hung: find out where, one set at a time
         st, v = guarded(lambda p: table_one(p, ts, how), pred)
@@ -1147,6 +1152,8 @@ def check_tag_case(case):
                  "rejected: " + " ".join(str(pred).split())[:120], feats)]
     exp = [t_eval(a, ts) for ts in tagsets]
     got = t_truth_table(pred, tagsets, how)
+    if got is None:
+        return [("taglang:terminates", {"text": text}, "no truth table within %d CPU-s" % DOC_GUARD_S, feats)]
     if exp != got or any(type(g) is not bool for g in got):
         return [("taglang:boolean-meaning-under-stated-precedence",
                  {"text": text, "truth_table": exp, "tag_sets": tagsets if len(tagsets) <= 16 else "all subsets of the tagx universe"},
@@ -1253,6 +1260,8 @@ def check_tag_edit_case(case):
                  "rejected: " + " ".join(str(pred).split())[:120], feats)]
     exp = [t_tok_eval(node, ts) for ts in TAGSETS]
     got = t_truth_table(pred, TAGSETS, "call-list")
+    if got is None:
+        return [("taglang:terminates", {"text": text}, "no truth table within %d CPU-s" % DOC_GUARD_S, feats)]
     if exp != got:
         return [("taglang:boolean-meaning-under-stated-precedence", {"text": text, "truth_table": exp, "tag_sets": TAGSETS}, got, feats)]
     return []
@@ -1376,7 +1385,12 @@ def _terms_hot(unit, tier):
     budget_ctx()                        # imports happen outside the CPU guard
     pending = []
     hangs = 0
+    t0 = time.process_time()
     for ti in range(unit["lo"], unit["hi"]):
+        if time.process_time() - t0 > UNIT_CPU_S[tier]:
+            res.exhaustive = False
+            res.notes.append("a terms unit was abandoned after %d CPU-s" % UNIT_CPU_S[tier])
+            break
         t = terms[ti]
         size = term_size(t)
         res.maxi("term_nodes_completed", size)
@@ -1427,10 +1441,23 @@ def _terms_hot(unit, tier):
 
 
 def _check_many(cases):
-    return [check_term_case(c) for c in cases]
+    """Fresh-parser decisions for many cases in one child; None = not decided (after 5 non-terminating ones the
+    rest of a unit's disagreements are only counted)."""
+    out = []
+    hangs = 0
+    for c in cases:
+        if hangs >= 5:
+            out.append(None)
+            continue
+        vio = check_term_case(c)
+        hangs += any(v[0] == "combinators:terminates" for v in vio)
+        out.append(vio)
+    return out
 
 
-MAX_REDECIDED_WITH_HISTORY = 4      # per unit: disagreements that need "prior" / "history" to reproduce
+MAX_REDECIDED = 1000                # per unit: disagreements re-decided from a descriptor (the rest is counted)
+MAX_REDECIDED_WITH_HISTORY = 3      # per unit: disagreements that need "prior" / "history" to reproduce
+MAX_STREAM_HISTORIES = 6            # per unit: kept violations re-run after the earlier cases of the unit
 
 
 def _decide_terms(res, unit, tier, pending):
@@ -1441,6 +1468,9 @@ def _decide_terms(res, unit, tier, pending):
     (3) after the earlier grammars of the unit.  The first variant that reproduces is recorded."""
     if not pending:
         return
+    if len(pending) > MAX_REDECIDED:
+        res.stat("disagreements_beyond_the_first_%d_per_unit_only_counted" % MAX_REDECIDED, len(pending) - MAX_REDECIDED)
+        pending = pending[:MAX_REDECIDED]
     terms = all_terms(BOUNDS[tier]["term_nodes"])
     sched = {}
     cases = []
@@ -1452,6 +1482,9 @@ def _decide_terms(res, unit, tier, pending):
     fresh = _in_child(_check_many, cases)
     left = []
     for (ti, k), case, vio in zip(pending, cases, fresh):
+        if vio is None:
+            res.stat("disagreements_after_5_nonterminating_ones_per_unit_only_counted", 1)
+            continue
         if vio and any(_class_open(res, c, f) for c, _, _, f in vio):
             vio = _in_child(check_term_case, case)       # alone, pristine
         if not vio:
@@ -1544,19 +1577,28 @@ def _stream_hot(unit, tier):
     res = Result()
     hangs = 0
     candidates = []
+    proposed = {}
     sample = None
+    t0 = time.process_time()
     for n, (case, nontrivial, prefix, stat) in enumerate(stream_cases(unit, tier)):
         if sample is None:
             sample = case
+        if time.process_time() - t0 > UNIT_CPU_S[tier]:
+            res.exhaustive = False
+            res.notes.append("a %s unit was abandoned after %d CPU-s" % (unit["part"], UNIT_CPU_S[tier]))
+            break
         vio = CHECKERS[case["kind"]](case)
         res.case(nontrivial=nontrivial, outcome="%s:%s" % (prefix, vio[0][0] if vio else "agree"))
         if stat:
             res.stat(stat[0], stat[1])
         for c, e, o, f in vio:
-            if _class_open(res, c, f):
+            key = (c, canon_json(f or {}))
+            if proposed.get(key, 0) < 6:                  # a few spares in case some do not reproduce alone
+                proposed[key] = proposed.get(key, 0) + 1
                 candidates.append((n, c, case, e, o, f))
-            else:
-                res.violation(c, case, e, o, f)           # counted; the class already has its kept examples
+            else:                                         # counted only; the class has its candidate examples
+                res.violation_total += 1
+                res.violation_counts[c] = res.violation_counts.get(c, 0) + 1
             hangs += c.endswith(":terminates")
         if hangs >= MAX_HANGS_PER_UNIT:
             res.exhaustive = False
@@ -1571,13 +1613,15 @@ def _decide_stream(res, unit, tier, candidates):
     """A violation that would be kept (and later replayed by the runner) is first reproduced ALONE in a
     pristine child; if it only shows after the earlier cases of the unit, the recorded case carries that
     history; if neither reproduces it, it is not recorded."""
+    histories = 0
     for n, c, case, e, o, f in candidates:
         if not _class_open(res, c, f):
             res.violation(c, case, e, o, f)
             continue
         vio = _in_child(check_stream_case, case)
         use = case
-        if not any(c2 == c for c2, _, _, _ in vio) and n:
+        if not any(c2 == c for c2, _, _, _ in vio) and n and histories < MAX_STREAM_HISTORIES:
+            histories += 1
             use = dict(case, history={"unit": unit, "tier": tier, "count": n})
             vio = _in_child(check_stream_case, use)
         hit = [v for v in vio if v[0] == c]
